@@ -29,7 +29,7 @@ INITS = ["uniform_", "normal_", "xavier_uniform_", "xavier_normal_", "kaiming_un
 
 
 # one call of every random-consuming entry point, appended to each program that is compared across fresh processes
-TAIL = [{"k": "init_all", "a": 0.2},
+TAIL = [{"k": "init_all", "a": 0.2}, {"k": "adam_eps0"},
         {"k": "layer", "kind": "linear", "i": 3, "o": 2}, {"k": "layer", "kind": "linear", "i": 0, "o": 2},
         {"k": "layer", "kind": "conv1d", "i": 2, "o": 3},
         {"k": "layer", "kind": "conv2d", "i": 2, "o": 3}, {"k": "layer", "kind": "bn", "i": 1, "o": 3, "affine": True, "momentum": 0.1},
@@ -46,7 +46,7 @@ def programs(draw, max_len=7):
     steps = []
     for _ in range(draw(st.integers(2, max_len))):
         k = draw(st.sampled_from(["rand", "randn", "normal", "randint", "init", "layer", "dropout", "split", "train", "train", "fixed",
-                                  "apply_init", "init_all"]))
+                                  "apply_init", "init_all", "adam_eps0"]))
         s = {"k": k}
         if k == "init_all":
             s["a"] = draw(st.sampled_from([0, 0.2, 1.0]))
